@@ -174,7 +174,11 @@ func wireScan(b []byte, base int, depth int, ps *[]ppos) bool {
 			if m == 0 || int(l) < 0 || i+m+int(l) > len(b) {
 				return false
 			}
-			*ps = append(*ps, ppos{base + i, 'N', m})
+			if depth == 0 {
+				*ps = append(*ps, ppos{base + i, 'N', m})
+			} else {
+				*ps = append(*ps, ppos{base + i, 'M', m}) // a length inside a nested message
+			}
 			if depth < 4 && l > 0 {
 				var sub []ppos
 				if wireScan(b[i+m:i+m+int(l)], base+i+m, depth+1, &sub) {
@@ -225,7 +229,8 @@ func genC06p2j(r *rng, n int) {
 			if hung {
 				ec = 4
 			}
-			fields := append(append([]string{}, sf...), fb(i64s), fb(dis), fx(in.b), fi(ec))
+			// last field: the input was made by changing a length varint INSIDE a nested message (selector of finding 611)
+			fields := append(append([]string{}, sf...), fb(i64s), fb(dis), fx(in.b), fi(ec), fb(in.class == "lennest"))
 			out.emit(613, fields...)
 			made++
 			if hung {
